@@ -1,7 +1,8 @@
 /-
 Abstract model of github.com/bits-and-blooms/bitset as used by the allocators:
-New / Test / Set / Clear / NextClear(0).  The word-level implementation in the
-library is in the trusted base; this is its observable contract.
+New / Test / Set / Clear / NextClear(0).  This is the library's observable contract; the word-level
+implementation is modelled in Model/BitsWords.lean and proved to refine this one in
+Props/BitsWords.lean (BITSW_*); the conformance engine `bits` compares both with the real library.
 -/
 namespace CoreDhcp
 
